@@ -111,6 +111,29 @@ pub(crate) fn any_state() -> State {
     state_shape(kani::any(), kani::any())
 }
 
+/// Any state shape; closed-with-error shapes carry a `Reset` error (no `Bytes`/`String` inside, so
+/// dropping the stream is cheap).  For harnesses where the error payload is irrelevant.
+#[cfg(kani)]
+pub(crate) fn any_state_light() -> State {
+    let k: u8 = kani::any();
+    let a: bool = kani::any();
+    let b: bool = kani::any();
+    State {
+        inner: match k % 10 {
+            0 => Idle,
+            1 => ReservedLocal,
+            2 => ReservedRemote,
+            3 => Open { local: mkp(a), remote: mkp(b) },
+            4 => HalfClosedLocal(mkp(a)),
+            5 => HalfClosedRemote(mkp(a)),
+            6 => Closed(Cause::EndStream),
+            7 => Closed(Cause::Error(Error::Reset(StreamId::from(1), Reason::from(kani::any::<u32>()), crate::verif_kani::any_initiator()))),
+            8 => Closed(Cause::ErrorAfterEndStream(Error::Reset(StreamId::from(1), Reason::from(kani::any::<u32>()), crate::verif_kani::any_initiator()))),
+            _ => Closed(Cause::ScheduledLibraryReset(Reason::from(kani::any::<u32>()))),
+        },
+    }
+}
+
 /// Any state that is not closed.
 #[cfg(kani)]
 pub(crate) fn any_live_state() -> State {
